@@ -448,6 +448,46 @@ func BackpressurePrograms() []*Program {
 		p.Phases = append(p.Phases, []Op{{Op: "cancelcall", Calls: all}}, []Op{{Op: "sleep", Ms: 150}})
 		ps = append(ps, p)
 	}
+	// batches that carry no rows are no backlog either: with the store wedged and a row waiting below every threshold,
+	// a crowd of empty batches (each with a receiver) is answered as it arrives - none of them may pile up behind the
+	// flush that cannot finish
+	for _, kind := range []string{"create", "update"} {
+		p := &Program{
+			Name:   "P3-empties-" + kind,
+			Cfg:    Cfg{IBS: 2, MBRows: 4},
+			Faults: []Fault{{Kind: kind, Nth: 1, Mode: "wedge"}},
+		}
+		var first, all []int
+		for id := 1; id <= 4; id++ {
+			p.Calls = append(p.Calls, rowsCall(id, "buf", 1, 1))
+			first = append(first, id)
+		}
+		p.Calls = append(p.Calls, rowsCall(5, "buf", 1, 1))
+		all = append(all, first...)
+		all = append(all, 5)
+		crowd := []Op{}
+		id := 5
+		for c := 0; c < 20; c++ {
+			var ids []int
+			for k := 0; k < 5; k++ {
+				id++
+				p.Calls = append(p.Calls, Call{ID: id, Kind: "empty", Chan: "buf"})
+				ids = append(ids, id)
+				all = append(all, id)
+			}
+			crowd = append(crowd, calls(fmt.Sprintf("e%d", c), ids...))
+		}
+		p.Phases = [][]Op{
+			{{Op: "start"}},
+			{calls("c0", first...)},
+			{calls("c0", 5)},
+			crowd,
+			{{Op: "cancelcall", Calls: all}},
+			{{Op: "unwedge"}},
+			{{Op: "stop", Mode: "nodeadline"}},
+		}
+		ps = append(ps, p)
+	}
 	return ps
 }
 
